@@ -16,6 +16,8 @@ vars == <<hist, ps>>
 Schema ==
   << DInt("i", "7"), DStr("s", "d"), DIntList("l", <<>>),
      DSec("sec", {}, << DInt("x", "5"), DFunc("include", "include") >>),
+     (* creating an instance scans the default value "{1, 2}" with a nested scanner buffer *)
+     DSec("m", {"MULTI"}, << DIntList("ml", <<"1", "2">>) >>),
      DFunc("include", "include") >>
 
 F(n) == "$R/" \o n \o ".conf"
@@ -32,12 +34,13 @@ FS ==
   (F("fe") :> File(<<NL(TkStr("sec")), TkP("{"), NL(TkStr("x")), TkP("="), TkP("="), TkP("}")>>)) @@
   (F("fs") :> File(Inc("fs"))) @@
   (F("fx") :> File(<<TkStr("x"), TkP("="), TkStr("2")>>)) @@
+  (F("fm") :> File(<<TkStr("m"), TkP("{"), TkP("}")>>)) @@
   (F("nl") :> File(<<NL(NL(TkStr("l"))), TkP("="), TkP("{"), TkStr("1"), NL(TkP(",")), TkStr("2"), TkP("}"), NL(Tk("cmt", "c", 0))>>)) @@
   ("$R/dir" :> [kind |-> "dir", toks |-> <<>>]) @@
   [n \in {F("k" \o ToString(k)) : k \in 1..11} |->
      File(Chain[CHOOSE k \in 1..11 : F("k" \o ToString(k)) = n])]
 
-Names == {F("fx"), F("f1"), F("f2"), F("f3"), F("fe"), F("fs"), F("nl"), F("k1"), F("k2"), "$R/dir", F("none")}
+Names == {F("fm"), F("fx"), F("f1"), F("f2"), F("f3"), F("fe"), F("fs"), F("nl"), F("k1"), F("k2"), "$R/dir", F("none")}
 
 NlUsed == LET G[i \in 0..Len(hist)] == IF i = 0 THEN 0 ELSE G[i-1] + hist[i].nl IN G[Len(hist)]
 NlChoices == IF NlUsed < NlBudget THEN {0, 1} ELSE {0}
